@@ -157,7 +157,8 @@ def run_model_checks(v, prop, tier):
             ('dev:error_keeps_copy_mode', 'MC_PoolCore_dev_error_keeps_copy_mode.cfg', False),
             ('dev:timeout_marks_bad_after_write', 'MC_PoolCore_dev_timeout_marks_bad_after_write.cfg', False),
             ('dev:local_batch_keeps_server', 'MC_PoolCore_dev_local_batch_keeps_server.cfg', False),
-            ('dev:reset_clears_dirty', 'MC_PoolCore_dev_reset_clears_dirty.cfg', False)]
+            ('dev:reset_clears_dirty', 'MC_PoolCore_dev_reset_clears_dirty.cfg', False),
+            ('dev:cleanup_in_copy_reuses', 'MC_PoolCore_dev_cleanup_in_copy_reuses.cfg', False)]
     if tier == 'thorough':
         runs.insert(1, ('design_3c', 'MC_PoolCore_design3.cfg', True))
         runs.insert(2, ('design_session', 'MC_PoolCore_session.cfg', True))
